@@ -561,7 +561,12 @@ def run(ctx):
 def replay(ctx, path):
     from harness.common import REPO
 
-    obj = json.loads(Path(path).read_text())
+    path = Path(path)
+    if not path.exists() and not path.is_absolute():
+        from harness.common import VERIF
+
+        path = VERIF / path
+    obj = json.loads(path.read_text())
     r = obj.get("replay") or {}
     print(json.dumps({k: v for k, v in obj.items() if k not in ("replay", "disagreements")}, indent=1)[:1500])
     print(json.dumps({k: v for k, v in r.items() if k != "cdxml_text"}, indent=1))
@@ -571,22 +576,25 @@ def replay(ctx, path):
         p = work / "replay.cdxml"
         p.write_text(r["cdxml_text"])
     elif src.startswith("repo:"):
-        p = REPO / src[5:]
-        v = str(r.get("variant", "original"))
-        d = L.Drawing(p)
-        if v == "mirror":
-            p = L.variant_mirror(d, work / "replay_mirror.cdxml")
+        p = REPO / src[5:].split(":")[0]
     else:
         print("(no file to replay)")
         return 0
-    pr = Parsed(p)
-    if "fragment" in r:
-        c, x = pr.by_frag.get(r["fragment"], ("missing", None))
-        print("fragment", r["fragment"], "->", c if isinstance(c, str) else {k: c[k] for k in ("charge", "mult", "ap")},
-              "" if isinstance(c, str) else f"{len(c['atoms'])} atoms {len(c['bonds'])} bonds")
-        if "centre" in r and x is not None:
-            q = [r["centre"]] + r["neighbours"]
-            print("orientation at centre", r["centre"], ":", ctx.driver([L.encode_orient(x, [tuple(q)])])[0], "(this file)")
+    files = [("this drawing", p)]
+    if "mirrored" in r:      # a mirror-test witness: the drawing and the drawing with wedge <-> hash
+        files = [("drawing", p), ("stereo marks mirrored", L.variant_mirror(L.Drawing(p), work / "replay_mirror.cdxml"))]
+    elif src.startswith("repo:") and "cdxml_text" not in r and str(r.get("variant")) == "mirror":
+        files = [("stereo marks mirrored", L.variant_mirror(L.Drawing(p), work / "replay_mirror.cdxml"))]
+    for what, fp in files:
+        pr = Parsed(fp)
+        if "fragment" in r:
+            c, x = pr.by_frag.get(r["fragment"], ("missing", None))
+            print(f"[{what}] fragment", r["fragment"], "->", c if isinstance(c, str) else {k: c[k] for k in ("charge", "mult", "ap")},
+                  "" if isinstance(c, str) else f"{len(c['atoms'])} atoms {len(c['bonds'])} bonds")
+            if "centre" in r and x is not None:
+                q = [r["centre"]] + r["neighbours"]
+                print(f"[{what}] handedness of centre", r["centre"], "with neighbours", r["neighbours"], ":",
+                      ctx.driver([L.encode_orient(x, [tuple(q)])])[0])
     if "label" in r:
         print("label", repr(r["label"]), "resolves to fragment", pr.resolved.get(r["label"]))
     return 0
